@@ -32,6 +32,7 @@ for dp, dn, fn in sorted(os.walk(pkg)):
         normalize.lower_match(tree)
         normalize.hoist_walrus(tree)
         normalize.split_divmod(tree)
+        normalize.inline_with_walrus(tree)
         normalize.canon_shapes(tree)
         normalize.rotate_loops(tree)
         normalize.unwrap_genexp_loops(tree)
